@@ -358,7 +358,7 @@ fn self_consistency(sh: &mut Shard) {
                             consistency_one(sh, &prefix);
                             // ... and with reads of ANOTHER string in between (nothing remembered about one string
                             // may be applied to another)
-                            let prefix = format!("stel s = \"{subj}\"; stel u = \"ö€x😀y\"; stel vooraf = s[{before}] + u[3]; s[{i}] = \"{rep}\"; stel tussen = u[1] + u[4];");
+                            let prefix = format!("stel s = \"{subj}\"; stel u = \"ö€x😀y\"; stel vooraf = [s[{before}], u[3]]; s[{i}] = \"{rep}\"; stel tussen = [u[1], u[4]];");
                             consistency_one(sh, &prefix);
                         }
                     }
